@@ -75,7 +75,7 @@ def main():
             only = args.pop(0)
         elif a == "--jobs":
             jobs = int(args.pop(0))
-    names = sorted(n for n in os.listdir(SEEDED) if os.path.exists(os.path.join(SEEDED, n, "meta.json")) and (not only or only in n))
+    names = sorted(n for n in os.listdir(SEEDED) if n != "neutralised" and os.path.exists(os.path.join(SEEDED, n, "meta.json")) and (not only or only in n))
     results = []
     with concurrent.futures.ThreadPoolExecutor(jobs) as ex:
         for res in ex.map(one, names):
